@@ -441,6 +441,10 @@ type c05Scn struct {
 	// segment and FIN in one step.
 	EOFWithData [2]bool
 	FinAtomic   [2]bool
+	// loopback runs: SO_SNDBUF/SO_RCVBUF forced small on all four sockets (0 = kernel
+	// default with autotuning), so that writes into the peer are partial and the copy
+	// paths see back-pressure (EAGAIN in the middle of a splice/writev round).
+	SockBuf int
 }
 
 func (s *c05Scn) Summary() map[string]any {
@@ -460,7 +464,7 @@ func (s *c05Scn) Summary() map[string]any {
 		"memLimit": s.MemLimit, "readChunk": s.ReadChunk, "sniffTimeout": s.SniffT.String(), "dnsTimeout": s.DnsT.String(),
 		"firstKind": s.FirstKind, "open": s.Open, "close": s.Close, "firstFlight": s.First,
 		"c2u": len(s.C2U), "u2c": len(s.U2C), "client": st(s.CSteps), "upstream": st(s.SSteps),
-		"wrapped": s.Wrapped, "probeTimeout": s.ProbeTO, "eofWithData": s.EOFWithData, "finAtomic": s.FinAtomic,
+		"wrapped": s.Wrapped, "probeTimeout": s.ProbeTO, "eofWithData": s.EOFWithData, "finAtomic": s.FinAtomic, "sockBuf": s.SockBuf,
 	}
 }
 
@@ -537,6 +541,7 @@ type c05GenOpt struct {
 	KnownDL    bool // DNS-detection read deadline stays armed on port 53 flows
 	KnownCW    bool // wrapper stacks do not pass the upstream's FIN on to the client
 	KnownDR    bool // a well-formed DNS message that is not a query is consumed by the detection and lost
+	ForcePlain bool // plain *net.TCPConn on both sides of the relay (splice path), no wrapper
 	Big        bool
 }
 
@@ -559,6 +564,12 @@ func c05GenScn(t *rapid.T, o c05GenOpt, excludedCase func(id string)) *c05Scn {
 	s.Stack = rapid.SampledFrom(stacks).Draw(t, "stack")
 	s.V6 = rapid.Bool().Draw(t, "v6")
 	s.RightOpaque = rapid.IntRange(0, 3).Draw(t, "rightOpaque") == 0
+	if o.ForcePlain {
+		s.Stack, s.RightOpaque = c05StackPlain, false
+	}
+	if !o.Mem {
+		s.SockBuf = rapid.SampledFrom([]int{0, 0, 4096, 16384, 65536}).Draw(t, "sockBuf")
+	}
 	if o.Mem {
 		s.MemLimit = rapid.SampledFrom([]int{0, 0, 1, 7, 4096, 65536}).Draw(t, "memLimit")
 		s.EOFWithData = [2]bool{rapid.Bool().Draw(t, "eofWithDataL"), rapid.Bool().Draw(t, "eofWithDataR")}
